@@ -178,27 +178,50 @@ def rule_update_table(ctx, res):
             return ('same_handle', truth)
         raise Lost('Node::update: unrecognised condition %s %s' % (rel, fmt(a)))
 
+    node_fields = [fl['name'] for v in ctx.f.adts['node::Node'].get('variants', []) for fl in v['fields']]
+
+    def src_of(v, fld):
+        """where the new value of field `fld` comes from: ('self'|'other', field) | ('const', n) | ('?', text)"""
+        v = strip_transparent(v)
+        for who in ('self', 'other'):
+            if is_field_of_param(v, who, fld):
+                return (who, fld)
+        k = term_int(v)
+        if k is not None:
+            return ('const', k)
+        return ('?', fmt(v)[:60])
+
     def outcome(p):
-        ws = lib.writes_of(p)
-        if not ws:
+        """the state of *self after the path, field by field (whole-struct assignment, struct rebuild and single
+        field assignments are the same thing to this table)"""
+        state = {f: ('self', f) for f in node_fields}
+        replaced = False
+        for _, place, val, _ in lib.writes_of(p):
+            if place[0] == 'deref' and is_param(place[1], 'self'):
+                v = strip_transparent(val) if val[0] != 'agg' else val
+                if is_param(v, 'other'):
+                    state = {f: ('other', f) for f in node_fields}
+                    replaced = True
+                elif v[0] == 'agg' and v[1] == 'node::Node::Node':
+                    state = {f: src_of(v[2].get(f), f) for f in node_fields}
+                    replaced = False
+                else:
+                    return 'other:%s' % fmt(v)
+            elif is_param(root_of(place), 'self') and len(field_chain(place)) == 1 and field_chain(place)[0] in node_fields:
+                f = field_chain(place)[0]
+                state[f] = src_of(val, f)
+            else:
+                return 'write-elsewhere:%s' % fmt(place)
+        if all(state[f] == ('self', f) for f in node_fields):
             return 'keep'
-        if len(ws) != 1:
-            return 'writes:%d' % len(ws)
-        _, place, val, _ = ws[0]
-        if not (place[0] == 'deref' and is_param(place[1], 'self')):
-            return 'write-elsewhere:%s' % fmt(place)
-        val = strip_transparent(val) if val[0] != 'agg' else val
-        if is_param(val, 'other'):
+        if all(state[f] == ('other', f) for f in node_fields):
             return 'replace'
-        if val[0] == 'agg' and val[1] == 'node::Node::Node':
-            f = val[2]
-            ok = (is_field_of_param(f.get('handle'), 'self', 'handle')
-                  and is_field_of_param(f.get('last_response'), 'other', 'last_response')
-                  and is_field_of_param(f.get('last_request'), 'self', 'last_request')
-                  and is_field_of_param(f.get('last_local_request'), 'self', 'last_local_request')
-                  and term_int(f.get('refresh_requests')) == 0)
-            return 'merge' if ok else 'merge?:%s' % fmt(val)
-        return 'other:%s' % fmt(val)
+        merge = {f: ('self', f) for f in node_fields}
+        merge['last_response'] = ('other', 'last_response')
+        merge['refresh_requests'] = ('const', 0)
+        if state == merge:
+            return 'merge'
+        return 'state:%s' % sorted((f, v) for f, v in state.items() if v != ('self', f))
 
     complete = sym.complete_paths()
     tab = Table.build(complete, classify, outcome)
@@ -331,7 +354,8 @@ def rule_who_writes(ctx, res):
         ws = ctx.field_writes(r'^node::Node$', field)
         writers = {b.path for b, _, _ in ws}
         res.sites += len(ws)
-        res.check(writers <= ok_fns, 'WHO', 'node::Node.' + field, 'field written only in %s' % (sorted(ok_fns) or 'constructors/update'),
+        # Node::update may write any field: what it writes is decided field by field by the update table
+        res.check(writers <= (ok_fns | {'node::Node::update'}), 'WHO', 'node::Node.' + field, 'field written only in %s' % (sorted(ok_fns) or 'constructors/update'),
                   detail='writers: %s' % sorted(writers), key='field-writers:' + field)
         mb = ctx.mut_borrows_of_field(r'^node::Node$', field)
         res.check(not mb, 'WHO', 'node::Node.' + field, 'no &mut to the field escapes', detail='%s' % [(b.path, s['sp']) for b, _, s in mb], key='field-mutborrow:' + field)
@@ -342,7 +366,7 @@ def rule_who_writes(ctx, res):
     for im in ctx.f.impls:
         if im['derived'] and im['self_ty'] == 'node::Node' and im['trait'] == 'std::clone::Clone':
             okm.add('<node::Node as std::clone::Clone>::clone')  # field-wise copy generated by #[derive(Clone)]
-    res.check(makers <= okm and len(aggs) >= 4, 'WHO', 'node::Node', 'whole-Node values are built only by the three constructors and update (floor 4 sites)',
+    res.check(makers <= okm and len(aggs) >= 3, 'WHO', 'node::Node', 'whole-Node values are built only by the three constructors and update',
               detail='builders: %s (%d sites)' % (sorted(makers), len(aggs)))
 
 
